@@ -190,11 +190,17 @@ def selectors(ng, names):
         Sel('$1.value', lambda r: _field(r, '1', 'value')), Sel('$2', lambda r: _rec(r, '2')),
         Sel('$2.value', lambda r: _field(r, '2', 'value')), Sel('[$1.value, $2, $3]', lambda r: [_field(r, '1', 'value'), _rec(r, '2'), _rec(r, '3')]),
         Sel('$4', lambda r: _rec(r, '4')), Sel("'k'", lambda r: 'k'),
+        # selectors whose result is produced lazily: the records they read inside the inner lambda must still be
+        # those of their own match when the result is consumed (after all matches have been visited)
+        Sel('[7, 8].select([$, $2])', lambda r: [[7, _rec(r, '2')], [8, _rec(r, '2')]]),
+        Sel('[7].select($2).where(true)', lambda r: [_rec(r, '2')]),
+        Sel('{k => [0].select($3)}', lambda r: {'k': [_rec(r, '3')]}),
     ]
     for nm in names:
         out.append(Sel('$%s' % nm, lambda r, nm=nm: _rec(r, nm)))
         out.append(Sel('$%s.value' % nm, lambda r, nm=nm: _field(r, nm, 'value')))
         out.append(Sel('[$%s.start, $%s.end]' % (nm, nm), lambda r, nm=nm: [_field(r, nm, 'start'), _field(r, nm, 'end')]))
+        out.append(Sel('[0, 1].select([$, $%s])' % nm, lambda r, nm=nm: [[0, _rec(r, nm)], [1, _rec(r, nm)]]))
     return out
 
 
@@ -236,6 +242,9 @@ def regex_cases(rng):
         yield 'search-selector', '%s.search($s, %s)' % (R, sel.text), v, (
             lambda sel=sel: (sel.fn(msx.match_records(rx.search(s))) if rx.search(s) else None)), i2
         yield 'searchAll-selector', '%s.searchAll($s, %s)' % (R, sel.text), v, (
+            lambda sel=sel: [sel.fn(msx.match_records(m)) for m in rx.finditer(s)]), i2
+        # all matches visited first, rows consumed afterwards
+        yield 'searchAll-selector-materialised', '%s.searchAll($s, %s).toList().reverse().reverse()' % (R, sel.text), v, (
             lambda sel=sel: [sel.fn(msx.match_records(m)) for m in rx.finditer(s)]), i2
     k = rng.randrange(0, 3)
     yield 'split', '%s.split($s)' % R, v, (lambda: rx.split(s)), info
